@@ -10,6 +10,9 @@ HARNESSES = {
     'swar_kernel': {'crate': 'flussab', 'file': 'flussab/src/text.rs', 'overlay': 'kani/swar_kernel.rs', 'harnesses': ['swar_kernel'],
                     'fn': 'flussab::text::swar_ascii_digits_u64_le', 'complete': True,
                     'what': 'real SWAR kernel == byte-wise reference for all 2^64 words (loop-free; reference unwound 9 with unwinding assertions)'},
+    'lower_kernel': {'crate': 'flussab-btor2', 'file': 'flussab-btor2/src/token.rs', 'overlay': 'kani/lower_kernel.rs', 'harnesses': ['lower_kernel_fast', 'lower_kernel_cold'],
+                     'fn': 'flussab_btor2::token::ascii_lowercase_u64', 'complete': True,
+                     'what': 'btor2 keyword scanner: SWAR fast path (all 2^64 words) and cold path (all inputs of 0..=8 bytes) == byte-wise reference, through the real DeferredReader'},
     'comb': {'crate': 'flussab', 'file': 'flussab/src/parser.rs', 'overlay': 'kani/comb.rs', 'complete': True,
              'harnesses': ['or_give_up_table', 'optional_table', 'matches_table', 'or_parse_table', 'or_always_parse_table', 'and_then_table',
                            'and_also_table', 'and_do_table', 'map_table', 'map_err_table', 'err_into_table', 'from_result_table',
